@@ -17,6 +17,12 @@ CLAIMS={
  "C06":("Structural clauses of the arc property: the zero-radius branch issues exactly one LineTo to the endpoint mapped into pixel space (and is taken whenever rx or ry is zero); every cubic receives x-map results in x positions and y-map results in y positions; the helper maps are the viewBox->rectangle map, its linear part and inverse; the arc is cut into n contiguous equal angle intervals by a loop counted 0..n with one cubic per iteration; the relative form adds the operand to the un-mapped pen and passes radii/rotation/flags through; smooth state reset.",
         "That the curve lies on the requested ellipse, direction/extent chosen by the flags, radius scale-up, and the <=4 bound on n (claimed under C02.8 when built): these depend on the numerical content of the endpoint-to-centre conversion and are not applicable to static analysis.",
         "static analysis: symbolic abstract interpretation of go/ssa with opaque helper summaries, rational normal forms, guard substitution"),
+ "C07":("Sibling cross-check of the two bundled Destination implementations: for every ivg.Destination method (and both increment variants of the register writes) the value that CSel()/NSel() report afterwards is, modulo 64, the same rational function of the old selector and the arguments in Encoder and Renderer (fields anchored by role: the field each getter returns); every DestinationLogger/RasterizerLogger method forwards exactly once to the same-named method with its own parameters in order; no type assertion on a Destination anywhere in the module.",
+        "Equality of rasteriser activity and paints up to quantisation between the direct and the encode+decode pipeline is covered structurally by C01 (call structure) and is not decided numerically.",
+        "static analysis: effect summaries by symbolic abstract interpretation, sibling comparison of normal forms, SSA instruction scan"),
+ "C10":("The Encoder's protocol automaton is extracted by keyed constant propagation: every exported method x every (mode, recorded error) pre-state x argument classes (ADJ in {0,3,6,7,200}, incr) - 780 keyed evaluations - gives the post-state; the set of reachable states is computed from the zero value through the extracted transitions (8 states) and on it the extracted table is compared with the specification automaton written from the property (error iff protocol violation, path open/closed), the recorded error is shown unchanged by every method but Reset, Bytes returns (nil, err) iff an error is recorded and the buffer otherwise, and every method entered in the initial mode first writes the default metadata, which equals Reset's output for the default metadata.",
+        "That a violation-free history decodes to itself is C01; the zero value's LOD() getter differs from a reset Encoder's (noted, not part of the stream).",
+        "static analysis: keyed sparse conditional constant propagation over go/ssa, automaton extraction and comparison, exhaustive over the abstract state space"),
  "C12":("Static decision over real arithmetic: the results of AspectMeet/AspectSlice/Size are brought to rational normal form per branch arm and the property's clauses (aspect, touches target, fits/covers under the arm's own condition, alignment at 0, 1/2, 1) are decided as polynomial identities for all inputs at once.",
         "float32 rounding is not decided; positive finite sizes are assumed as the property states.",
         "static analysis: gated-SSA algebraic value numbering (rational normal forms), identities by cross-multiplication"),
